@@ -113,35 +113,39 @@ Print Assumptions c20_pbt_clone_source_alive_partial.
 
 (* Resumed trials.  For EVERY scheduler that keeps a set [needed] of trials it may still
    resume (or that run) such that: a STOPped trial leaves it, a resumed trial was in it,
-   only newly started trials enter it, and what it lists as removable is outside it —
+   only newly started trials enter it, what it lists as removable is outside it, and reports
+   only come from trials it considers [active] (the tuner only polls running trials) —
    speculation off — every resume_trial(i), in every schedule and batch order, is preceded
    by no delete_checkpoint(i) at all. *)
 Theorem c20_resume_has_checkpoint :
   forall (S R G : Type) (sch : scheduler S R G) (c : cfg), speculative c = false ->
-  forall (cc : bool) (needed : S -> list Z) (sinv : Z -> S -> Prop),
-    (forall n s i r s' d cl, sinv n s -> on_result sch s i r = (s', d, cl) ->
+  forall (cc : bool) (needed active : S -> list Z) (sinv : Z -> S -> Prop),
+    (forall n s i r s' d cl, sinv n s -> In i (active s) -> on_result sch s i r = (s', d, cl) ->
        sinv n s' /\ incl (needed s') (needed s) /\ (d = STOP -> ~ In i (needed s')) /\
-       (forall j, cl = Some j -> In j (needed s))) ->
+       (forall j, cl = Some j -> In j (needed s)) /\
+       (forall x, In x (active s) -> x <> i \/ d = CONTINUE -> In x (active s'))) ->
     (forall n s g s' sg, sinv n s -> suggest sch s n g = (s', sg) ->
        match sg with
-       | SNone => sinv n s' /\ incl (needed s') (needed s)
-       | SNew => sinv (n + 1)%Z s' /\ incl (needed s') (n :: needed s)
-       | SFrom j => sinv (n + 1)%Z s' /\ incl (needed s') (n :: needed s) /\ (cc = true -> In j (needed s))
-       | SResume i => sinv n s' /\ incl (needed s') (needed s) /\ In i (needed s)
+       | SNone => sinv n s' /\ incl (needed s') (needed s) /\ incl (active s) (active s')
+       | SNew => sinv (n + 1)%Z s' /\ incl (needed s') (n :: needed s) /\ incl (n :: active s) (active s')
+       | SFrom j => sinv (n + 1)%Z s' /\ incl (needed s') (n :: needed s) /\ incl (n :: active s) (active s') /\
+                    (cc = true -> In j (needed s))
+       | SResume i => sinv n s' /\ incl (needed s') (needed s) /\ incl (i :: active s) (active s') /\ In i (needed s)
        end) ->
     (forall n s s' l, sinv n s -> removables sch s = (s', l) ->
-       sinv n s' /\ incl (needed s') (needed s) /\
+       sinv n s' /\ incl (needed s') (needed s) /\ incl (active s) (active s') /\
        forall i, In i l -> ~ In i (needed s') /\ (0 <= i < n)%Z) ->
-    (forall n s i, sinv n s -> sinv n (on_error sch s i) /\ incl (needed (on_error sch s i)) (needed s)) ->
+    (forall n s i, sinv n s -> sinv n (on_error sch s i) /\ incl (needed (on_error sch s i)) (needed s) /\
+       (forall x, In x (active s) -> x <> i -> In x (active (on_error sch s i)))) ->
   forall s0 its, sinv 0%Z s0 ->
     (forall pre i post, run sch c (init s0) its = pre ++ EResume i :: post -> forall w, ~ In (EDelete i w) pre) /\
     (forall pre i j post, run sch c (init s0) its = pre ++ EClone i j :: post -> forall w, ~ In (EDelete j w) pre) /\
     (cc = true -> forall pre j t post, run sch c (init s0) its = pre ++ ECopy j t :: post -> forall w, ~ In (EDelete j w) pre).
 Proof.
-  intros S R G sch c Hs cc needed sinv H1 H2 H3 H4 s0 its H0. repeat split.
-  - intros pre i post. exact (resume_has_checkpoint sch c Hs cc needed sinv H1 H2 H3 H4 s0 its pre i post H0).
-  - intros pre i j post. exact (clone_source_alive_at_decision sch c Hs cc needed sinv H1 H2 H3 H4 s0 its pre i j post H0).
-  - intros Hcc pre j t post. exact (copy_has_checkpoint sch c Hs cc needed sinv H1 H2 H3 H4 Hcc s0 its pre j t post H0).
+  intros S R G sch c Hs cc needed active sinv H1 H2 H3 H4 s0 its H0. repeat split.
+  - intros pre i post. exact (resume_has_checkpoint sch c Hs cc needed active sinv H1 H2 H3 H4 s0 its pre i post H0).
+  - intros pre i j post. exact (clone_source_alive_at_decision sch c Hs cc needed active sinv H1 H2 H3 H4 s0 its pre i j post H0).
+  - intros Hcc pre j t post. exact (copy_has_checkpoint sch c Hs cc needed active sinv H1 H2 H3 H4 Hcc s0 its pre j t post H0).
 Qed.
 Print Assumptions c20_resume_has_checkpoint.
 
